@@ -137,7 +137,9 @@ Definition check_P (p : string) (args : list sexp) : list sexp :=
            A ("impl:" ++ pimpl_tag impl'); A ("model:" ++ pimpl_tag m);
            A ("verify:" ++ match vo' with Some o => outcome_tag o | None => "none" end);
            A ("honest:" ++ (if honest then "t" else "f") ++ (if expect' then "/expected" else ""));
-           A (if legacy then "fmt:legacy" else "fmt:w3c")]
+           A (if legacy then "fmt:legacy" else "fmt:w3c");
+           (* the case lies in the class for which the end-to-end statement is a theorem (C04_legacy_plain) *)
+           A (if legacy && plain_b c then "class:theorem-covers" else "class:correspondence-only")]
       | _, _, _, _, _, _, _, _, _, _ => [A "decode-error"]
       end
   | _ => [A "decode-error"]
